@@ -52,6 +52,7 @@ var flatVals = []interface{}{
 	bson.A{int32(1), int32(2)}, bson.A{int32(2), int32(3)}, bson.A{float64(1)}, bson.A{}, bson.A{"a", int64(3)},
 	bson.D{{Key: "x", Value: int32(1)}}, bson.D{{Key: "x", Value: float64(1)}}, bson.D{{Key: "x", Value: int32(2)}}, bson.D{{Key: "x", Value: bson.A{int32(1), int32(2)}}},
 	primitive.DateTime(1000), primitive.DateTime(4102444800000),
+	bson.A{bson.D{{Key: "x", Value: int32(1)}, {Key: "q", Value: int32(5)}}, bson.D{{Key: "x", Value: int32(2)}, {Key: "q", Value: int32(6)}}},
 }
 
 var poisonVals = []interface{}{int32(1), int32(7), "str", bson.A{int32(1)}, int64(5), nil, bson.D{{Key: "q", Value: int32(1)}}}
@@ -159,6 +160,14 @@ func (g *HistGen) Update(docs []bson.D) (bson.D, []bson.D) {
 		}
 	}
 	k := fw.Pick(r, []string{"a", "b", "c", "p", "c.x", "n"})
+	if r.Chance(1, 10) {
+		// write into an element of an array of sub-documents through a dotted path
+		p := fw.Pick(r, []string{"a", "b", "c"}) + "." + fw.Pick(r, []string{"0", "1"}) + "." + fw.Pick(r, []string{"q", "x"})
+		if r.Bool() {
+			return bson.D{{Key: "$inc", Value: bson.D{{Key: p, Value: int32(1)}}}}, nil
+		}
+		return bson.D{{Key: "$set", Value: bson.D{{Key: p, Value: g.flatVal()}}}}, nil
+	}
 	switch r.Intn(12) {
 	case 0, 1, 2:
 		return bson.D{{Key: "$set", Value: bson.D{{Key: k, Value: g.flatVal()}}}}, nil
